@@ -165,8 +165,9 @@ def outer_products(f: Func) -> List[Finding]:
             if len(a) == 1 and len(b) == 1 and a[0][0] == b[0][0]:
                 ok = a[0][1] != b[0][1]
                 out.append(Finding(ok, n, "outer(%s, %s)%s" % (fmt(a), fmt(b), "" if ok else ": a projector |v><v| needs the conjugate on one side"), "S1"))
-        elif isinstance(n, ast.BinOp) and isinstance(n.op, ast.MatMult):
-            l, r = n.left, n.right
+        elif (isinstance(n, ast.BinOp) and isinstance(n.op, ast.MatMult)) or \
+                (isinstance(n, ast.Call) and (dotted(n.func) or "") in ("np.dot", "numpy.dot", "np.matmul") and len(n.args) == 2):
+            l, r = (n.left, n.right) if isinstance(n, ast.BinOp) else (n.args[0], n.args[1])
 
             def wrapped(e):
                 # np.array([v]) / np.array([v]).T / v.reshape(-1, 1) ...
